@@ -31,6 +31,9 @@ pub struct Case {
     /// the first contig has length exactly k with one site in its centre
     pub exact_k_contig: bool,
     pub one_step: bool,
+    /// line width of each sample's FASTA (cyclic; 0 = unwrapped)
+    #[serde(default)]
+    pub wrap: Vec<u8>,
 }
 
 fn case_strategy() -> BoxedStrategy<Case> {
@@ -44,9 +47,10 @@ fn case_strategy() -> BoxedStrategy<Case> {
                 proptest::collection::vec((any::<u8>(), any::<u16>()), 1..6),
                 prop::bool::weighted(0.15),
                 prop::bool::weighted(0.5),
+                proptest::collection::vec(prop_oneof![2 => Just(0u8), 1 => 1u8..90], 1..4),
             )
         })
-        .prop_map(|(k, n_samples, contigs, sites, orient, exact_k_contig, one_step)| Case { k, n_samples, contigs, sites, orient, exact_k_contig, one_step })
+        .prop_map(|(k, n_samples, contigs, sites, orient, exact_k_contig, one_step, wrap)| Case { k, n_samples, contigs, sites, orient, exact_k_contig, one_step, wrap })
         .boxed()
 }
 
@@ -129,6 +133,16 @@ fn materialise(c: &Case) -> Result<Mat, String> {
     Ok(Mat { ancestor, sites: placed, samples })
 }
 
+fn width_of(c: &Case, sample: usize) -> Option<usize> {
+    if c.wrap.is_empty() {
+        return None;
+    }
+    match c.wrap[sample % c.wrap.len()] {
+        0 => None,
+        w => Some(w as usize),
+    }
+}
+
 fn check(c: &Case, ctx: &Ctx) -> Outcome {
     let m = match materialise(c) {
         Ok(m) => m,
@@ -140,15 +154,23 @@ fn check(c: &Case, ctx: &Ctx) -> Outcome {
     let r: Result<(), Outcome> = (|| {
         let o = if one_step {
             let mut args: Vec<String> = vec!["align".into(), "--min-freq".into(), "1".into()];
-            for (n, recs) in &m.samples {
+            for (si, (n, recs)) in m.samples.iter().enumerate() {
                 let f = format!("{n}.fa");
-                cli::write_fasta_auto(&dir.join(&f), recs, None);
+                cli::write_fasta_auto(&dir.join(&f), recs, width_of(c, si));
                 args.push(f);
             }
             let argv: Vec<&str> = args.iter().map(|s| s.as_str()).collect();
             run_ska(ctx, &dir, &argv)
         } else {
-            must_ok(&build(ctx, &dir, "x", &m.samples, k, true, 1), "ska build")?;
+            let mut list = String::new();
+            for (si, (n, recs)) in m.samples.iter().enumerate() {
+                let f = dir.join(format!("{n}.fa"));
+                cli::write_fasta_auto(&f, recs, width_of(c, si));
+                list += &format!("{n}\t{}\n", cli::p(&f));
+            }
+            std::fs::write(dir.join("list.txt"), list).unwrap();
+            let ks = k.to_string();
+            must_ok(&run_ska(ctx, &dir, &["build", "-f", "list.txt", "-o", "x", "-k", &ks]), "ska build")?;
             run_ska(ctx, &dir, &["align", "--min-freq", "1", "x.skf"])
         };
         must_ok(&o, "ska align --min-freq 1")?;
@@ -190,12 +212,13 @@ fn check(c: &Case, ctx: &Ctx) -> Outcome {
             if one_step { cl.push("one_step_from_fasta"); }
             if k >= 33 { cl.push("128bit"); }
             if m.ancestor.len() >= 2 { cl.push("multi_contig"); }
+            if (0..m.samples.len()).any(|i| width_of(c, i).is_some()) { cl.push("wrapped_fasta"); }
             pass(true, key_of(&(k, &m.ancestor, &m.sites, &m.samples)), cl)
         }
     }
 }
 
-const RULE: &str = "generated: 1-3 ancestor contigs (length k..5k, one of exactly k with a central site in 15% of cases) built by greedy extension so that every split k-mer is unique on both strands and none is self-reverse-complement, also after substitution (checked; residual rejections counted); 1-6 substitution sites more than (k-1)/2 apart and >= (k-1)/2 from the contig ends, 2-4 alleles over 2-10 samples with >=2 alleles present; every sample's contigs independently reverse-complemented and shuffled; all k. Oracle: multiset of output columns (normalised up to complement) == planted columns, names in input order, equal lengths. Every accepted case has >=1 site (non-trivial); distinct by (k, ancestor, sites, samples).";
+const RULE: &str = "generated: 1-3 ancestor contigs (length k..5k, one of exactly k with a central site in 15% of cases) built by greedy extension so that every split k-mer is unique on both strands and none is self-reverse-complement, also after substitution (checked; residual rejections counted); 1-6 substitution sites more than (k-1)/2 apart and >= (k-1)/2 from the contig ends, 2-4 alleles over 2-10 samples with >=2 alleles present; every sample's contigs independently reverse-complemented and shuffled, its FASTA unwrapped or wrapped at a generated width; all k. Oracle: multiset of output columns (normalised up to complement) == planted columns, names in input order, equal lengths. Every accepted case has >=1 site (non-trivial); distinct by (k, ancestor, sites, samples).";
 
 fn stages(tier: Tier) -> Vec<Box<dyn Stage>> {
     vec![gen_stage_show("align", RULE, tier.pick(3200, 40_000), 250, case_strategy, check, |c| match materialise(c) {
